@@ -9,6 +9,8 @@ use proptest::strategy::{BoxedStrategy, Strategy};
 
 pub struct C02;
 
+const THRESHOLD_EXH: u8 = 100;
+
 pub fn check_tip_agreement(w: &mut World, i: usize, out: &mut Outcome, fee_observed_tip: &mut Option<usize>) {
     let net = w.cfg.net;
     let best = w.model.best_chain();
@@ -140,6 +142,19 @@ impl Property for C02 {
     }
     fn required_classes(&self, _tier: Tier) -> Vec<&'static str> {
         vec!["best_not_longest", "exact_difficulty_tie", "step_reorg", "step_anchor_advance", "net_mainnet", "net_testnet", "net_regtest"]
+    }
+    fn extra_cases(&self, tier: Tier) -> Vec<History> {
+        // exhaustive: every fork tree (shape x arrival order) x difficulties in {1,2,3}
+        let mut v = vec![];
+        let nmax = match tier {
+            Tier::Quick => 4,
+            Tier::Thorough => 6,
+        };
+        for n in 1..=nmax {
+            let net = [crate::chain::Net::Mainnet, crate::chain::Net::Testnet, crate::chain::Net::Regtest][n % 3];
+            v.extend(crate::hist::exhaustive_trees(n, net, THRESHOLD_EXH));
+        }
+        v
     }
     fn run(&self, case: &History) -> Outcome {
         let mut out = Outcome::default();
